@@ -29,7 +29,7 @@ fn streams() -> Vec<Stream> {
 
 fn pct(c: &mut Ctx, r: &mut Rng, _i: u64) {
     let f = Focus { plutus: 12, coin_select: 14, collateral_helpers: 0, ..Focus::default() };
-    scenario(c, r, f, c19_monitor)
+    scenario_ex(c, r, f, c19_monitor, Some(c19_failed_helper))
 }
 
 fn setters(ctx: &mut Ctx, r: &mut Rng, _i: u64) {
